@@ -34,6 +34,7 @@ func checkC17(ctx *Ctx, r *Report) {
 	c17ExactLookups(ctx, r)
 	c17AppendOnSharedSlice(ctx, r)
 	c17RenameArgumentsCovers(ctx, r)
+	c17MergedPathsPrefixed(ctx, r)
 	// the copies veneers rely on
 	for _, m := range findCopyMethods(ctx) {
 		if m.pkg.PkgPath == astPkgPath {
@@ -1248,4 +1249,82 @@ func collectNameWrites(info *types.Info, body ast.Node, written map[*types.Var]b
 		}
 		return true
 	})
+}
+
+// c17MergedPathsPrefixed: mergeBuilderInto re-roots the assignments of the merged builder under `underPath`. The paths of
+// the source builder are relative to the *source* object: the only sound use of one in this function is as the argument of
+// underPath.Append(·). Comparing a source path with the destination's paths, or storing it unprefixed, mixes the two
+// coordinate systems (`type` of the merged options object vs `type` of the panel).
+func c17MergedPathsPrefixed(ctx *Ctx, r *Report) {
+	p := ctx.Pkg("internal/veneers/builder")
+	fn := ctx.LookupFunc("internal/veneers/builder", "mergeBuilderInto")
+	fd, _ := ctx.DeclOf(fn)
+	if p == nil || fd == nil {
+		r.Undecided("anchor lost: builder.mergeBuilderInto")
+		return
+	}
+	info := p.TypesInfo
+	parents := parentMap(fd)
+	var from, under types.Object
+	for _, f := range fd.Type.Params.List {
+		for _, nm := range f.Names {
+			switch nm.Name {
+			case "fromBuilder":
+				from = info.Defs[nm]
+			case "underPath":
+				under = info.Defs[nm]
+			}
+		}
+	}
+	if from == nil || under == nil {
+		r.Undecided("anchor lost: parameters fromBuilder / underPath of mergeBuilderInto")
+		return
+	}
+	// values ranging over (parts of) fromBuilder
+	sourceVars := map[types.Object]bool{from: true}
+	for round := 0; round < 3; round++ {
+		ast.Inspect(fd.Body, func(m ast.Node) bool {
+			if rs, ok := m.(*ast.RangeStmt); ok {
+				if ap := accessPathOf(info, rs.X); ap.ok && sourceVars[ap.root] {
+					if v, ok := rs.Value.(*ast.Ident); ok {
+						sourceVars[info.Defs[v]] = true
+					}
+				}
+			}
+			return true
+		})
+	}
+	n := 0
+	ast.Inspect(fd.Body, func(m ast.Node) bool {
+		sel, ok := m.(*ast.SelectorExpr)
+		if !ok || sel.Sel.Name != "Path" {
+			return true
+		}
+		ap := accessPathOf(info, sel)
+		if !ap.ok || !sourceVars[ap.root] || ap.root == from && len(ap.steps) < 2 {
+			return true
+		}
+		// the LHS of an assignment is a write, not a read
+		if as, ok := parents[sel].(*ast.AssignStmt); ok {
+			for _, l := range as.Lhs {
+				if l == ast.Expr(sel) {
+					return true
+				}
+			}
+		}
+		n++
+		prefixed := false
+		if c, ok := parents[sel].(*ast.CallExpr); ok {
+			if cs, ok := c.Fun.(*ast.SelectorExpr); ok && cs.Sel.Name == "Append" {
+				if id, ok := ast.Unparen(cs.X).(*ast.Ident); ok && objOf(info, id) == under {
+					prefixed = true
+				}
+			}
+		}
+		r.Check(prefixed, "effects/merged-paths-prefixed", fmt.Sprintf("builder.mergeBuilderInto reads %s #%d", exprString(sel), n), sel.Pos(), "only as the argument of underPath.Append",
+			fmt.Sprintf("mergeBuilderInto uses the source builder's path %s outside underPath.Append(·): source paths are relative to the merged object, destination paths to the destination — compared or stored as they are, `type` of the merged object is taken for `type` of the destination (a constructor constant is dropped or lands on the wrong field)", exprString(sel)))
+		return true
+	})
+	r.Count("reads of source paths in mergeBuilderInto", n)
+	r.Floor("reads of source paths in mergeBuilderInto", 2)
 }
